@@ -181,6 +181,10 @@ class Ref:
                 if c.include_last:
                     atoms += self.con_atoms(ci, c, lambda e: self.at_node(e, N), 'con%d@node%d' % (ci, N))
             elif grid == 'integrator_roots':
+                if not hasattr(self.tr, 'Xr'):
+                    # no collocation points: the expected outcome is a rejection; report as expected-but-absent
+                    atoms.append(('le', self.dom.const(1) + self.tr.X[0][0] * self.tr.X[0][0], 'con%d@roots-unplaceable' % ci))
+                    continue
                 for k in range(N):
                     for i in range(M):
                         for j in range(self.cfg.degree):
